@@ -286,4 +286,143 @@ example : pyIndex [10, 11, 12] (.ints [3]) = none := by decide
 example : norm 5 (-2) = some 3 := by decide
 example : (demo.select [2, 0, 1]).select [1, 1] = demo.select [0, 0] := by decide +kernel
 
+
+/-! ### slices with ANY non-zero step: the k-th selected position is `start + k·step`, and exactly the k with that position
+before `stop` are selected (start / stop = CPython's `slice.indices`) -/
+
+theorem rangeUp_getElem? (stop : Int) (s : Nat) (hs : 0 < s) :
+    ∀ (fuel : Nat) (cur : Int), (stop - cur).toNat ≤ fuel → ∀ k : Nat,
+      (rangeUp stop s fuel cur)[k]? =
+        if cur + ((k * s : Nat) : Int) < stop then some (cur + ((k * s : Nat) : Int)).toNat else none := by
+  intro fuel
+  induction fuel with
+  | zero =>
+    intro cur hf k
+    have : ¬ (cur + ((k * s : Nat) : Int) < stop) := by
+      generalize k * s = m; omega
+    rw [if_neg this]; rfl
+  | succ f ih =>
+    intro cur hf k
+    unfold rangeUp
+    by_cases hc : cur < stop
+    · simp only [hc, if_true]
+      cases k with
+      | zero => simp [hc]
+      | succ k =>
+        rw [List.getElem?_cons_succ, ih (cur + s) (by omega) k]
+        have e : (k + 1) * s = k * s + s := Nat.succ_mul k s
+        rw [e]
+        generalize k * s = m
+        have : cur + (s : Int) + (m : Int) = cur + ((m + s : Nat) : Int) := by omega
+        rw [this]
+    · simp only [hc, if_false]
+      have : ¬ (cur + ((k * s : Nat) : Int) < stop) := by generalize k * s = m; omega
+      rw [if_neg this]; rfl
+
+theorem rangeDown_getElem? (stop : Int) (s : Nat) (hs : 0 < s) :
+    ∀ (fuel : Nat) (cur : Int), (cur - stop).toNat ≤ fuel → ∀ k : Nat,
+      (rangeDown stop s fuel cur)[k]? =
+        if stop < cur - ((k * s : Nat) : Int) then some (cur - ((k * s : Nat) : Int)).toNat else none := by
+  intro fuel
+  induction fuel with
+  | zero =>
+    intro cur hf k
+    have : ¬ (stop < cur - ((k * s : Nat) : Int)) := by
+      generalize k * s = m; omega
+    rw [if_neg this]; rfl
+  | succ f ih =>
+    intro cur hf k
+    unfold rangeDown
+    by_cases hc : stop < cur
+    · simp only [hc, if_true]
+      cases k with
+      | zero => simp [hc]
+      | succ k =>
+        rw [List.getElem?_cons_succ, ih (cur - s) (by omega) k]
+        have e : (k + 1) * s = k * s + s := Nat.succ_mul k s
+        rw [e]
+        generalize k * s = m
+        have : cur - (s : Int) - (m : Int) = cur - ((m + s : Nat) : Int) := by omega
+        rw [this]
+    · simp only [hc, if_false]
+      have : ¬ (stop < cur - ((k * s : Nat) : Int)) := by generalize k * s = m; omega
+      rw [if_neg this]; rfl
+
+theorem slice_bounds (n : Nat) (x : Option Int) (s : Int) :
+    (0 < s → 0 ≤ sliceStart n x s ∧ sliceStart n x s ≤ n ∧ 0 ≤ sliceStop n x s ∧ sliceStop n x s ≤ n) ∧
+    (s < 0 → -1 ≤ sliceStart n x s ∧ sliceStart n x s ≤ (n : Int) - 1 ∧ -1 ≤ sliceStop n x s ∧ sliceStop n x s ≤ (n : Int) - 1) := by
+  constructor
+  · intro hs
+    unfold sliceStart sliceStop clamp
+    cases x with
+    | none => simp only [hs, if_true]; omega
+    | some a => simp only [hs, if_true]; split <;> split <;> (try split) <;> (try split) <;> omega
+  · intro hs
+    have hn : ¬ (0 < s) := by omega
+    unfold sliceStart sliceStop clamp
+    cases x with
+    | none => simp only [hn, if_false]; omega
+    | some a => simp only [hn, if_false]; split <;> split <;> (try split) <;> (try split) <;> omega
+
+theorem gather_getElem? {α} (l : List α) : ∀ (ixs : List Nat), (∀ i ∈ ixs, i < l.length) → ∀ k : Nat,
+    (gather l ixs)[k]? = (ixs[k]?).bind (fun i => l[i]?) := by
+  intro ixs
+  induction ixs with
+  | nil => intro _ k; simp [gather]
+  | cons i is ih =>
+    intro h k
+    have hi := h i (by simp)
+    have hg : gather l (i :: is) = l[i] :: gather l is := by
+      simp [gather, List.filterMap_cons, List.getElem?_eq_getElem hi]
+    rw [hg]
+    cases k with
+    | zero => simp [List.getElem?_eq_getElem hi]
+    | succ k => simpa using ih (fun x hx => h x (by simp [hx])) k
+
+/-- **C04.pyIndex_slice_general** — a slice with ANY step s ≠ 0 and any (negative, out-of-range, omitted) bounds selects, with
+`start`/`stop` the bounds CPython's `slice.indices(len)` computes: for s > 0 the elements at `start + k·s` for exactly the k
+with `start + k·s < stop`; for s < 0 the elements at `start − k·|s|` for exactly the k with `stop < start − k·|s|` — in this order -/
+theorem pyIndex_slice_general {α} (l : List α) (a b : Option Int) (s : Int) (hs : s ≠ 0) :
+    ∃ r, pyIndex l (.slice a b s) = some r ∧ ∀ k : Nat,
+      r[k]? =
+        if 0 < s then
+          (if sliceStart l.length a s + ((k * s.toNat : Nat) : Int) < sliceStop l.length b s
+            then l[(sliceStart l.length a s + ((k * s.toNat : Nat) : Int)).toNat]? else none)
+        else
+          (if sliceStop l.length b s < sliceStart l.length a s - ((k * (-s).toNat : Nat) : Int)
+            then l[(sliceStart l.length a s - ((k * (-s).toNat : Nat) : Int)).toNat]? else none) := by
+  have htl : (Idx.slice a b s).toList l.length = sliceList l.length a b s := rfl
+  obtain ⟨ba1, ba2⟩ := slice_bounds l.length a s
+  obtain ⟨bb1, bb2⟩ := slice_bounds l.length b s
+  by_cases hpos : 0 < s
+  · have hsl : sliceList l.length a b s = some (rangeUp (sliceStop l.length b s) s.toNat (l.length + 1) (sliceStart l.length a s)) := by
+      unfold sliceList; simp [hs, hpos]
+    refine ⟨gather l (rangeUp (sliceStop l.length b s) s.toNat (l.length + 1) (sliceStart l.length a s)), ?_, ?_⟩
+    · unfold pyIndex; rw [htl, hsl]; rfl
+    · intro k
+      have hlt := toList_lt l.length (.slice a b s) _ (by rw [htl, hsl])
+      rw [gather_getElem? l _ hlt k,
+        rangeUp_getElem? _ s.toNat (by omega) (l.length + 1) _ (by have := ba1 hpos; have := bb1 hpos; omega) k]
+      simp only [hpos, if_true]
+      split <;> simp
+  · have hneg : s < 0 := by omega
+    have hsl : sliceList l.length a b s = some (rangeDown (sliceStop l.length b s) (-s).toNat (l.length + 1) (sliceStart l.length a s)) := by
+      unfold sliceList; simp [hs, hpos]
+    refine ⟨gather l (rangeDown (sliceStop l.length b s) (-s).toNat (l.length + 1) (sliceStart l.length a s)), ?_, ?_⟩
+    · unfold pyIndex; rw [htl, hsl]; rfl
+    · intro k
+      have hlt := toList_lt l.length (.slice a b s) _ (by rw [htl, hsl])
+      rw [gather_getElem? l _ hlt k,
+        rangeDown_getElem? _ (-s).toNat (by omega) (l.length + 1) _ (by have := ba2 hneg; have := bb2 hneg; omega) k]
+      simp only [hpos, if_false]
+      split <;> simp
+
+/-- the extractor's own `__getitem__` with any stepped slice: the abstraction of the result is that list selection -/
+theorem index_slice_general (e : Ext) (h : LenWF e) (a b : Option Int) (s : Int) :
+    (e.index (.slice a b s)).map Ext.abs = pyIndex e.abs (.slice a b s) := select_refines e h _
+
+/-! d[::2], d[5:0:-2] on seven elements -/
+example : pyIndex [0, 1, 2, 3, 4, 5, 6] (.slice none none 2) = some [0, 2, 4, 6] := by decide
+example : pyIndex [0, 1, 2, 3, 4, 5, 6] (.slice (some 5) (some 0) (-2)) = some [5, 3, 1] := by decide
+
 end C04
